@@ -1,1 +1,3 @@
 pub mod c14;
+pub mod c15;
+pub mod c18;
